@@ -29,6 +29,9 @@ structure Func (Val : Type) where
   pArgs : List Val := []        -- functools.partial: fixed positionals
   pKwds : List (Val × Val) := []   -- functools.partial: fixed keywords
   bound : Bool := false         -- the (inner) callable is a bound method: `self` is supplied
+  /-- the first `nposonly` entries of `pos` are positional-only (`def f(a, b, /, c)`): `getfullargspec`
+  lists them among `args` without saying so, which is all `klepto` looks at -/
+  nposonly : Nat := 0
   deriving Repr
 
 structure PCall (Val : Type) where
@@ -107,6 +110,31 @@ def bind (self : Val) (f : Func Val) (c : PCall Val) : Option (Binding Val) :=
   let args := (if f.bound then [self] else []) ++ f.pArgs ++ c.args
   let kwds := update f.pKwds c.kwds
   bindPlain f args kwds
+
+/-! ### positional-only parameters (PEP 570)
+
+A positional-only parameter takes a positional argument or its default; a keyword of the same name
+never reaches it (it is an ordinary extra keyword: `**kwargs` or a TypeError). -/
+
+def bindPosOnly : List (Param Val) → List Val → Option (List (Val × Val) × List Val)
+  | [], as => some ([], as)
+  | p :: ps, a :: as => (bindPosOnly ps as).map (fun r => ((p.name, a) :: r.1, r.2))
+  | p :: ps, [] => match p.dflt with
+    | some dv => (bindPosOnly ps []).map (fun r => ((p.name, dv) :: r.1, r.2))
+    | none => none
+
+def bindPlainPO (f : Func Val) (args : List Val) (kwds : List (Val × Val)) : Option (Binding Val) :=
+  match bindPosOnly (f.pos.take f.nposonly) args with
+  | none => none
+  | some (named0, rest) =>
+    (bindPlain { f with pos := f.pos.drop f.nposonly, nposonly := 0 } rest kwds).map
+      (fun b => { b with named := named0 ++ b.named })
+
+/-- **SPEC**, general form: `bind` for signatures that may have positional-only parameters -/
+def bindPO (self : Val) (f : Func Val) (c : PCall Val) : Option (Binding Val) :=
+  let args := (if f.bound then [self] else []) ++ f.pArgs ++ c.args
+  let kwds := update f.pKwds c.kwds
+  bindPlainPO f args kwds
 
 /-! ## code: `signature(func, markup=False, variadic=False, safe=True)` -/
 
